@@ -388,10 +388,12 @@ SortFamily(tier) ==
        \cup SortTaskCases(3, {0, 1}, {1, 2})
        \cup SortWorkplaceCases(2, {0, 1, 2}, {-1, 0, 1})
        \cup SortWorkplaceCases(3, {0, 1}, {0, 1})
-  ELSE SortWorkerCases(3, {-1, 0, 1, 2}, {0, 1}, {0, 1}, {0, 1, 2})
-       \cup SortFacilityCases(3, {-1, 0, 1, 2}, {0, 1, 2}, {0, 1, 2})
-       \cup SortTaskCases(3, {0, 1, 2}, {1, 2, 3})
-       \cup SortWorkplaceCases(3, {0, 1, 2}, {-1, 0, 1})
+  \* (about 135 000 cases; the first tier-2 bounds gave 920 000, whose export alone took hours)
+  ELSE SortWorkerCases(3, {-1, 0, 2}, {0, 1}, {0, 1}, {0, 1})
+       \cup SortFacilityCases(3, {-1, 0, 1, 2}, {0, 1}, {0, 1})
+       \cup SortTaskCases(3, {0, 1, 2}, {1, 2})
+       \cup SortWorkplaceCases(3, {0, 1, 2}, {0, 1})
+       \cup SortWorkplaceCases(2, {0, 1, 2}, {-1, 0, 1})
 
 \* ---- FamReport: inputs of the reporting functions (C19) ---------------------------------
 SeqsUpTo(A, n) == UNION { [1..k -> A] : k \in 0..n }
